@@ -286,6 +286,26 @@ func (e *Ev) specCall(name string, n *ast.CallExpr) (Term, bool) {
 		lo := e.asInt(e.ev(n.Args[1]))
 		hi := e.asInt(e.ev(n.Args[2]))
 		return Term{S: smtAnd(app("<=", lo, x), app("<", x, hi)), Sort: sBool, T: boolT}, true
+	case "elemsAt":
+		// elemsAt(T, a): the contents of backing array a of element type T (a whole SMT array)
+		t := e.evType(n.Args[0])
+		if t == nil {
+			return e.errorf(n, "elemsAt: unknown type"), true
+		}
+		es := e.sortOf(t)
+		a := e.asInt(e.ev(n.Args[1]))
+		h := e.elemHeap(es)
+		return Term{S: app("select", h, a), Sort: fmt.Sprintf("(Array Int %s)", es)}, true
+	case "fst", "snd":
+		t := e.ev(n.Args[0])
+		k := 0
+		if name == "snd" {
+			k = 1
+		}
+		if k >= len(t.Tuple) {
+			return e.errorf(n, "%s of non-tuple", name), true
+		}
+		return t.Tuple[k], true
 	case "mathint":
 		x := e.asInt(e.ev(n.Args[0]))
 		return Term{S: x, Sort: sInt, T: types.Typ[types.Int], Signed: true}, true
